@@ -119,6 +119,48 @@ class SpecDB:
             self.by_decl[f.decl.name()] = f
         return f.decl
 
+    def pure_decl(self, c):
+        if getattr(c, "_pure_decl", None) is None:
+            for _, ty in c.params:
+                if parse_type(ty) not in ("int", "bool", "bytes", "str", "ilist"):
+                    raise Unsupported(f"pure() contract {c.key}: parameter type {ty}")
+            c._pure_decl = z3.Function("pure_" + c.target.split(":")[1].replace(".", "_"),
+                                       *[sort_of(t) for _, t in c.params], sort_of(c.returns))
+        return c._pure_decl
+
+    def pure_axiom(self, eng, c):
+        """forall args: well-typed and requires and not (any raises-condition) ==> ensures[result := f(args)]"""
+        from .values import wt_term
+        decl = self.pure_decl(c)
+        vars_ = [z3.Const(f"{decl.name()}_{n}", sort_of(ty)) for n, ty in c.params]
+        app = decl(*vars_)
+        s = State()
+        hyps = []
+        for v, (n, ty) in zip(vars_, c.params):
+            s.env[n] = from_term(v, ty)
+            hyps += wt_term(v, ty)
+        s.env["result"] = from_term(app, c.returns)
+        saved = eng.fr.init_state if eng.fr else None
+        if eng.fr:
+            eng.fr.init_state = s.fork()
+        from .values import Binder
+        Binder.depth += 1
+        try:
+            for r in c.requires:
+                hyps.append(eng.truth(s, eng.ev1(r, s)))
+            for (exc, when, ens) in c.raises:
+                if when is None:
+                    raise Unsupported(f"pure() contract {c.key} with an unconditional raises")
+                hyps.append(z3.Not(eng.truth(s, eng.ev1(when, s))))
+            concl = list(wt_term(app, c.returns))
+            for en in c.ensures:
+                concl.append(eng.truth(s, eng.ev1(en, s)))
+        finally:
+            Binder.depth -= 1
+            if eng.fr:
+                eng.fr.init_state = saved
+        return z3.ForAll(vars_, z3.Implies(z3.And(*hyps) if hyps else z3.BoolVal(True), z3.And(*concl)), patterns=[app])
+
     def apply(self, eng, st, name, args):
         f = self.funcs[name]
         if len(args) != len(f.params):
@@ -215,11 +257,17 @@ class SpecDB:
                 vars_ = [z3.Const(f"{f.name}_{n}", sort_of(ty)) for n, ty in f.params]
                 app = self.decl(f)(*vars_)
                 argvals = [from_term(v, ty) for v, (_, ty) in zip(vars_, f.params)]
-                val = self.body_value(eng, f, argvals)
-                rhs = to_term(eng, State(), val, f.ret)
+                from .values import Binder
+                with Binder():
+                    val = self.body_value(eng, f, argvals)
+                    rhs = to_term(eng, State(), val, f.ret)
                 ax = z3.ForAll(vars_, app == rhs, patterns=[app])
                 out.append(ax)
                 self._defax_named[self.decl(f).name()] = ax
+        for c in eng.cdb.pure.values():
+            ax = self.pure_axiom(eng, c)
+            out.append(ax)
+            self._defax_named[self.pure_decl(c).name()] = ax
         self._defax = out
         return out
 
